@@ -107,12 +107,14 @@ Definition w_mismatch_start :=
 Definition w_replace_end :=
   mkCall FReplace 0 0 P0 (SList [1;2;3]) (SList [9;9]) None (Some 3%nat) false None None None TDefault CAbsent false BAdd None 1 false TrNum.
 Definition w_fill_end := mk FFill 0 0 P0 (SList [1;2;3]) SNil None (Some 3%nat) None TDefault CAbsent false.
-(* (subseq nil 0), (every (lambda (x) (eql 0 x)) nil), (subsetp nil '(1)): type-error *)
+(* (subseq nil 0) => nil, (every (lambda (x) (eql 0 x)) nil) => t, (subsetp nil '(1)) => t (repaired: were type-errors) *)
 Definition w_subseq_nil := mk FSubseq 0 0 P0 SNil SNil (Some 0%nat) None None TDefault CAbsent false.
 Definition w_every_nil := mk FEvery 0 0 P0 SNil SNil None None None TDefault CAbsent false.
 Definition w_subsetp_nil := mk FSubsetp 0 0 P0 SNil (SList [1]) None None None TDefault CAbsent false.
-(* (reduce '+ nil), (map 'list '1+ nil), (merge 'list nil '(1) '<): Go run-time panic *)
-Definition w_reduce_nil := mk FReduce 0 0 P0 SNil SNil None None None TDefault CAbsent false.
+(* (reduce '+ nil :initial-value 5) => 5, (map 'list '1+ nil) => nil, (merge 'list nil '(1) '<) => (1)
+   (repaired: were failed Go type assertions) *)
+Definition w_reduce_nil :=
+  mkCall FReduce 0 0 P0 SNil SNil None None false None None None TDefault CAbsent false BAdd (Some 5) 1 false TrT.
 Definition w_map_nil := mk FMap 0 0 P0 SNil SNil None None (Some KSucc) TDefault CAbsent false.
 Definition w_merge_nil := mk FMerge 0 0 P0 SNil (SList [1]) None None None (TTest TLt) CAbsent false.
 (* (merge 'list '(-1) '(1) '< :key 'abs) => (1 -1) *)
@@ -134,7 +136,7 @@ Definition w_find_if_not := mk FFindIfNot 0 0 P0 (SVec [0;1;2]) SNil None None N
 Definition refutation_witnesses : list call :=
   [w_remove_if_not; w_find_if_not; w_test_not; w_subst_test_not; w_setdiff_test_not; w_subst_count; w_subst_count0; w_subst_count_neg;
    w_assoc_order; w_search_from_end; w_search_empty; w_mismatch_from_end; w_mismatch_start;
-   w_replace_end; w_fill_end; w_subseq_nil; w_every_nil; w_subsetp_nil; w_reduce_nil; w_map_nil; w_merge_nil;
+   w_replace_end; w_fill_end;
    w_merge_tie; w_some_value; w_reduce_empty; w_reduce_start; w_dups_ne; w_dups_from_end].
 
 Lemma all_refuted : forallb refutes refutation_witnesses = true.
@@ -150,7 +152,9 @@ Proof. vm_compute. split; reflexivity. Qed.
 (* ---- repaired defects: the witnesses of the findings repaired in slip (repo_fixes/C14-n.patch) are now inside
    the guard, and the model of the repaired code returns the value the language defines ------------------ *)
 Definition repaired_witnesses : list (call * res) :=
-  [ (w_count_utf8, RInt 2); (w_count_nil, RSeq [2]); (w_assoc_nil, RNil) ].
+  [ (w_count_utf8, RInt 2); (w_count_nil, RSeq [2]); (w_assoc_nil, RNil);
+    (w_subseq_nil, RSeq []); (w_every_nil, RTrue); (w_subsetp_nil, RTrue); (w_reduce_nil, RElt 5);
+    (w_map_nil, RSeq []); (w_merge_nil, RSeq [1]) ].
 Definition repaired_ok (cr : call * res) : bool :=
   in_domain (fst cr) &&
   match m_call (fst cr), s_call (fst cr) with
@@ -261,10 +265,6 @@ Lemma mismatch_refuted : refutes w_mismatch_from_end = true /\ refutes w_mismatc
 Proof. vm_compute. split; reflexivity. Qed.
 Lemma replace_fill_end_refuted : refutes w_replace_end = true /\ refutes w_fill_end = true.
 Proof. vm_compute. split; reflexivity. Qed.
-Lemma nil_sequence_refuted :
-  refutes w_subseq_nil = true /\ refutes w_every_nil = true /\ refutes w_subsetp_nil = true /\
-  refutes w_reduce_nil = true /\ refutes w_map_nil = true /\ refutes w_merge_nil = true.
-Proof. vm_compute. repeat split; reflexivity. Qed.
 Lemma merge_tie_refuted : refutes w_merge_tie = true.
 Proof. vm_compute. reflexivity. Qed.
 Lemma some_value_refuted : refutes w_some_value = true.
